@@ -94,7 +94,7 @@ func genC10(t *rapid.T) c10Case {
 	c := c10Case{Prog: g.p}
 	n := rapid.IntRange(3, 8).Draw(t, "ntemplates")
 	for i := 0; i < n; i++ {
-		kind := rapid.SampledFrom([]string{"ordinary", "failing", "failing", "probing", "probing", "embprobe", "returning", "nested-ranges", "trying", "publishing", "relinclude", "positional", "ptrmethod", "mapbuilder", "swallowing", "bumping", "layoutuser", "layoutuser", "blocklesschild"}).Draw(t, "kind")
+		kind := rapid.SampledFrom([]string{"ordinary", "failing", "failing", "probing", "probing", "embprobe", "returning", "nested-ranges", "trying", "publishing", "relinclude", "positional", "ptrmethod", "mapbuilder", "swallowing", "bumping", "rtwriting", "converting", "layoutuser", "layoutuser", "blocklesschild"}).Draw(t, "kind")
 		path := c10EntryPath(i, kind)
 		var body []*mj.Node
 		rt := mj.Print(mj.Call("rtprobe"))
@@ -133,10 +133,16 @@ func genC10(t *rapid.T) c10Case {
 			} else {
 				body = []*mj.Node{mj.Text("(child:"), {K: "include", E: mj.Str("/lay/child.jet")}, mj.Text(")")}
 			}
+		case "rtwriting":
+			// a function that writes through the Runtime it is handed; what it writes last ends inside a character
+			body = []*mj.Node{mj.Text("(written:"), mj.Print(mj.Call("rtWrite", mj.Str("a<"), mj.Str([]string{"caf\xc3", "日\xe6\x9c", "x\xf0\x9f\x98", "plain"}[rapid.IntRange(0, 3).Draw(t, "rtwTail")]))), mj.Text(")")}
+			if rapid.Bool().Draw(t, "rtwLast") {
+				body = body[:2] // nothing at all after the call
+			}
 		case "bumping":
 			// a counter initialised from a literal and incremented by a Go helper: every execution starts from the literal
 			body = []*mj.Node{mj.Let("count", mj.Num(float64(rapid.IntRange(0, 2).Draw(t, "bumpFrom")))), mj.Print(mj.Call("bump", mj.Str("count"))), mj.Text("(count="), mj.Print(mj.Var("count")), mj.Text(")"),
-				mj.Let("word", mj.Str("w")), mj.Text("(word="), mj.Print(mj.Var("word")), mj.Text(")")}
+				mj.Let("word", mj.Str("w")), mj.Let("word2", mj.Var("word")), mj.Print(mj.Call("bump", mj.Str("word"))), mj.Text("(word="), mj.Print(mj.Var("word")), mj.Text(")(word2="), mj.Print(mj.Var("word2")), mj.Text(")")}
 		case "swallowing":
 			// the execution succeeds although something failed on the way: isset() asked for a member of what a
 			// template returns, and that template failed below constructs that had opened scopes / rebound '.'
@@ -181,6 +187,12 @@ func genC10(t *rapid.T) c10Case {
 			// calls a pointer-receiver method of the context: fine for data handed over as a pointer, an error for the
 			// same struct handed over by value - in whatever order the two executions come
 			body = []*mj.Node{mj.Text("[ptrmethod:"), {K: "fail", Src: ".PtrOnly()", Class: "not-modelled"}, mj.Text("]")}
+		case "converting":
+			// a slice handed to a Go function that takes an array (or a pointer to one): whether it fits depends on this
+			// slice alone, not on what an earlier execution handed over
+			fn := []string{"arr3", "parr2"}[rapid.IntRange(0, 1).Draw(t, "convFn")]
+			arg := []string{"slice(1, 2)", "slice(1, 2, 3)", `slice("a")`, `slice("a", "b", "c", "d")`}[rapid.IntRange(0, 3).Draw(t, "convArg")]
+			body = []*mj.Node{mj.Text("(converted:"), {K: "fail", Src: fn + "(" + arg + ")", Class: "not-modelled"}, mj.Text(")")}
 		case "mapbuilder":
 			// builds a map of its own from an empty map(): nothing of it may be there the next time
 			body = []*mj.Node{{K: "fail", Src: "mb := map()", Class: "not-modelled"}, {K: "fail", Src: `mb.k = "v"`, Class: "not-modelled"}, {K: "fail", Src: `mb.ctx = .`, Class: "not-modelled"}, mj.Text("[built "), {K: "fail", Src: "len(mb)", Class: "not-modelled"}, mj.Text("]"),
@@ -324,6 +336,12 @@ func hashTemplate(t *jet.Template) uint64 {
 	return h.Sum64()
 }
 
+// c10Globals: Go functions with array parameters (the "converting" templates hand them slices)
+func c10Globals(s *jet.Set) {
+	s.AddGlobal("arr3", func(a [3]interface{}) string { return fmt.Sprint("arr3:", a[0], a[2]) })
+	s.AddGlobal("parr2", func(p *[2]interface{}) string { return fmt.Sprint("parr2:", p[0], p[1]) })
+}
+
 func judgeC10(c c10Case) (v core.Verdict) {
 	src := mj.NewPrinter().Sources(c.Prog)
 	var rtLog []string
@@ -341,6 +359,7 @@ func judgeC10(c c10Case) (v core.Verdict) {
 			a.Runtime().LetGlobal("pub", "P")
 			return reflect.Value{}
 		})
+		c10Globals(s)
 		for k, f := range failFuncs() {
 			s.AddGlobalFunc(k, f)
 		}
@@ -496,6 +515,8 @@ func judgeC10(c c10Case) (v core.Verdict) {
 				if v, ok := in.APIResolve(a[0].(string)); ok {
 					if f, isF := v.(float64); isF {
 						in.APISet(a[0].(string), f+1)
+					} else if s, isS := v.(string); isS {
+						in.APISet(a[0].(string), s+"!")
 					}
 				}
 				return nil
@@ -512,7 +533,7 @@ func judgeC10(c c10Case) (v core.Verdict) {
 
 func TestC10(t *testing.T) {
 	core.Run(t, "C10",
-		"histories of 2-15 Execute calls (template, nil/string/map data, nil or non-nil VarMap, destination that works or fails after 1/7/30 bytes) on one goroutine over a pool of 3-8 generated templates: ordinary, failing (failure of any of 24 kinds below range / if-let / block / yield-with-content / yielded block body / include with context / inner try / block yielded by a Go helper through Runtime.YieldBlock, uncaught or caught), trying (successful try bodies, nested), returning from a range (slice, array, 1- and 4-entry maps), nested ranges over the same value, publishing (a function calling Runtime.LetGlobal), swallowing (isset of a failing exec), bumping (a helper changing a variable in place), a layout / theme library / block-less child trio, pages in directories of their own including the same relative name, pages overriding a block that a shared layout yields with positional arguments, and probing (top-level yield content, '.', isset of names other templates declare or publish, a range, a range-else over an empty map), each call on one of two Sets over the same sources (default escaper / escaper off; data with HTML-special bytes); oracle = every call reproduces byte for byte (errors: nil-ness and position) what the same call renders right after the object pools were emptied by two forced GCs, while the history runs with GOMAXPROCS(1) and GC off so the pooled Runtime is reused (pointer observed through a probe function); structural hash of every Template before/after; reference interpreter as second opinion; non-trivial = a failing execution followed by a probing one on the same Runtime pointer",
+		"histories of 2-15 Execute calls (template, nil/string/map data, nil or non-nil VarMap, destination that works or fails after 1/7/30 bytes) on one goroutine over a pool of 3-8 generated templates: ordinary, failing (failure of any of 24 kinds below range / if-let / block / yield-with-content / yielded block body / include with context / inner try / block yielded by a Go helper through Runtime.YieldBlock, uncaught or caught), trying (successful try bodies, nested), returning from a range (slice, array, 1- and 4-entry maps), nested ranges over the same value, publishing (a function calling Runtime.LetGlobal), swallowing (isset of a failing exec), bumping (a helper changing a variable in place), a layout / theme library / block-less child trio, pages in directories of their own including the same relative name, pages overriding a block that a shared layout yields with positional arguments, and probing (top-level yield content, '.', isset of names other templates declare or publish, a range, a range-else over an empty map), each call on one of two Sets over the same sources (default escaper / escaper off; data with HTML-special bytes); also: writing (a function writing through the Runtime, ending inside a character), converting (slices of 1-4 elements handed to functions that take [3]T / *[2]T), a helper changing a string variable in place, Renderers that fail after a piece that ends inside a character; oracle = every call reproduces byte for byte (errors: nil-ness and position) what the same call renders right after the object pools were emptied by two forced GCs, while the history runs with GOMAXPROCS(1) and GC off so the pooled Runtime is reused (pointer observed through a probe function); structural hash of every Template before/after; reference interpreter as second opinion; non-trivial = a failing execution followed by a probing one on the same Runtime pointer",
 		genC10, judgeC10)
 }
 
